@@ -315,18 +315,25 @@ Do(k) == \/ k = "src" /\ \E r \in SrcReqs : SetBreakpoints(r)
          \/ k = "fn" /\ \E r \in FnReqs : SetFunctionBreakpoints(r)
          \/ k = "insn" /\ \E r \in InsnReqs : SetInstructionBreakpoints(r)
          \/ k = "data" /\ \E r \in DataReqs : SetDataBreakpoints(r)
-         \/ k \in {"go", "go2"} /\ (ConfigurationDone \/ Continue)
+         \/ k \in {"go", "go2", "go3", "go4"} /\ (ConfigurationDone \/ Continue)
          \/ k = "restart" /\ Restart
-Classes == {"src", "fn", "insn", "data", "go", "go2", "restart"}
-ClassEnabled(k) == CASE k \in {"go", "go2"} -> ref.st # "exited"
-                     [] k = "restart" -> ref.st # "unload" /\ RestartUnambiguous(ref)
+Classes == {"src", "fn", "insn", "data", "go", "go2", "go3", "go4", "restart"}
+ClassEnabled(k) == CASE k \in {"go", "go2", "go3", "go4"} -> ref.st # "exited"
+                     \* generation binds restart of a live process only: after `exited` the adapter is
+                     \* `terminated` (drops events) and restart-after-exit belongs to C11/C12
+                     [] k = "restart" -> ref.st = "stopped" /\ RestartUnambiguous(ref)
                      [] OTHER -> TRUE
 Pick == /\ cls = ""
         /\ nreq < MaxReq
         /\ \E k \in Classes : ClassEnabled(k) /\ cls' = k
         /\ UNCHANGED <<ref, impl, nreq, last, hist>>
-Next == IF TwoPhase THEN Pick \/ (cls # "" /\ Do(cls) /\ cls' = "")
-        ELSE (\E k \in Classes \ {"go2"} : Do(k)) /\ UNCHANGED cls
+\* generation: a complete behaviour prints its history once (as a successor of the chosen final state)
+Done == /\ Emit /\ nreq = MaxReq /\ cls = ""
+        /\ PrintT(<<"BEH", ToJson(hist)>>)
+        /\ cls' = "done"
+        /\ UNCHANGED <<ref, impl, nreq, last, hist>>
+Next == IF TwoPhase THEN Pick \/ (cls \in Classes /\ Do(cls) /\ cls' = "") \/ Done
+        ELSE (\E k \in Classes \ {"go2", "go3", "go4"} : Do(k)) /\ UNCHANGED cls
 Spec == Init /\ [][Next]_vars
 
 -----------------------------------------------------------------------------
@@ -360,7 +367,5 @@ OptionsHonouredWheneverSet ==
 InSync == \A c \in Cfgs : impl[c].st = ref.st /\ impl[c].pos = ref.pos
 
 -----------------------------------------------------------------------------
-(* generation: every complete behaviour prints its history once            *)
-EmitHist == (Emit /\ nreq = MaxReq) => PrintT(<<"BEH", ToJson(hist)>>)
 View == <<ref, impl, nreq, last, cls>>
 =============================================================================
